@@ -54,6 +54,16 @@ Theorem C19_read_write_unfold :
 Proof. exact read_write_unfold. Qed.
 Print Assumptions C19_read_write_unfold.
 
+(* the numbering-free view does not depend on the object numbers at all: two tables that differ
+   by a renumbering (sparse numbering, numbers beyond every byte offset, ...) have the same
+   unfoldings — the snapshot the harness compares is invariant under the permutation *)
+Theorem C19_snapshot_invariant_under_renumbering :
+  forall (phi : N -> N) (t t' : N -> option obj),
+  (forall n, t' (phi n) = option_map (rename phi) (t n)) ->
+  forall d o, unfold t' d (rename phi o) = unfold t d o.
+Proof. exact unfold_rename. Qed.
+Print Assumptions C19_snapshot_invariant_under_renumbering.
+
 (* phi is an isomorphism between the parts reachable from any object *)
 Theorem C19_reachable_isomorphic :
   forall (phi : N -> N), (forall a b, phi a = phi b -> a = b) ->
